@@ -146,6 +146,16 @@ theorem history_keeps_defaults {T : Table} (h : DefaultsStable T) (D : Layer) :
     rw [runLoads, this]
     exact history_keeps_defaults h D rest
 
+/-- **A `Load` does not depend on earlier loads.**  Under `DefaultsStable`, after any history of
+load and save→load steps through one command, a `Load` returns what the first `Load` of a process
+returns for the same command line and the same file: the result is a function of (command line,
+file as it is now, defaults) only. -/
+theorem load_independent_of_history {T : Table} (h : DefaultsStable T) (D args : Layer)
+    (ops : List HistOp) (file : Layer) :
+    load T (runHistory T D args ops) args file = load T D args file := by
+  unfold runHistory
+  rw [history_keeps_defaults h D]
+
 /-- Without `DefaultsStable`: an option that is *not* behind a shared pointer still starts from its
 pristine default in every history of loads. -/
 theorem history_keeps_unshared {T : Table} (hgo : (T.fields.map (·.go)).Nodup)
@@ -236,7 +246,52 @@ theorem C18_save_load_all (D : Layer) (c : String → String) :
 theorem C18_history_keeps_defaults (ops : List (Layer × Layer)) : runLoads table [] ops = [] :=
   history_keeps_defaults C18_defaults_full [] ops
 
+/-- **`Load` of the compiled code's table is independent of the history of the command.**  After
+ANY sequence of loads and save→loads through one command (command line `args`), with the file
+changing arbitrarily in between, the next step `o` (a load of some file, or `SaveAsYaml c` followed
+by a load) returns exactly what a process's very first `Load` returns for that command line and
+that file … -/
+theorem C18_load_independent_of_history (args : Layer) (ops : List HistOp) (o : HistOp) :
+    load table (runHistory table [] args ops) args (o.file table) = load table [] args (o.file table) :=
+  load_independent_of_history C18_defaults_full [] args ops _
+
+/-- … which for every option is flag > file-as-it-is-now > default (no value of an earlier file,
+no value an earlier load resolved) … -/
+theorem C18_history_precedence {f : Field} (hf : f ∈ table.fields) (hc : f.go ∉ nonConfigFields)
+    (args : Layer) (ops : List HistOp) (o : HistOp) :
+    resolve table (runHistory table [] args ops) args (o.file table) f =
+      (specResolve table args (o.file table) f, specSrc table args (o.file table) f) :=
+  C18_precedence hf hc (ops.map fun o' => (args, HistOp.file table o')) args (o.file table)
+
+/-- … and after `SaveAsYaml c` the load returns `c` for every option no flag of the command line
+names, however many loads and saves went through the command before. -/
+theorem C18_history_save_load {f : Field} (hf : f ∈ table.fields) (hc : f.go ∉ nonConfigFields)
+    (args : Layer) (ops : List HistOp) (c : String → String) (hnf : givenFlag table args f = none) :
+    resolve table (runHistory table [] args ops) args (save table c) f = (c f.go, .file) := by
+  have h := C18_history_precedence hf hc args ops (.saveLoad c)
+  have hs := C18_save_load hf hc [] c
+  have hp := precedence C18_table_full hf hc [] [] (save table c) rfl
+  rw [hs] at hp
+  -- the file holds `c f.go` under the option's path
+  have hfile : (save table c).lookup f.yaml = some (c f.go) := by
+    have h1 := congrArg Prod.fst hp
+    have h2 := congrArg Prod.snd hp
+    simp only [specResolve, specSrc, givenFlag, List.find?_nil, Option.map_none] at h1 h2
+    cases hl : (save table c).lookup f.yaml with
+    | none => rw [hl] at h2; cases h2
+    | some v => rw [hl] at h1; simp at h1; rw [h1]
+  have h' : resolve table (runHistory table [] args ops) args (save table c) f =
+      (specResolve table args (save table c) f, specSrc table args (save table c) f) := h
+  rw [h']
+  simp [specResolve, specSrc, hnf, hfile]
+
 /-! ### non-vacuity -/
+
+/-- the history theorem on a concrete history of the generated table: first file says 5s, the file
+is rewritten to 7s, the second load through the same command says 7s, from the file -/
+example : (table.fields.find? (·.go = "Node.BlockTime")).map
+    (fun f => resolve table (runHistory table [] [] [.load [("node.block_time", "5s")]]) []
+      (HistOp.file table (.load [("node.block_time", "7s")])) f) = some ("7s", .file) := by decide
 
 /-- the signer flag (ignored before the repair) on the generated table beats the file -/
 example : (table.fields.find? (·.go = "Signer.SignerType")).map
